@@ -1,5 +1,6 @@
 import RV.Model.Particles
 import RV.Model.ParticlesSide
+import RV.Model.ParticlesLookup
 /-
   drv_c14 — runs RV.Particles (the model of particle.c bookkeeping, reb_hash and the
   Python container index rules) on op lines produced by rv/c14.py.
@@ -113,11 +114,12 @@ def geoOf : Nat → Geo
 structure DS where
   v : Variant
   c : State
+  cap : Nat := 0      -- N_allocated_lookup, followed with RV.Particles.capAfterLookup
 
 def bit (s : String) : Bool := s = "1"
 
 def answer (d : DS) (c' : State) (o : Out) (hint : String) : DS × String :=
-  ({ d with c := c' }, s!"{outStr o} {stateStr c'} hint={hint}")
+  ({ d with c := c' }, s!"{outStr o} {stateStr c'} cap={d.cap} hint={hint}")
 
 def stepLine (d : DS) (toks : List String) : DS × String :=
   match toks with
@@ -125,7 +127,7 @@ def stepLine (d : DS) (toks : List String) : DS × String :=
     ({ d with v := ⟨bit a, bit b, bit c, bit e, bit f, bit g, bit h, bit i⟩ }, "variant-set")
   | ["new", t, b, f, m] =>
     let c := State.init (bit t) (bit b) (bit f) (bit m)
-    answer d c .done "none"
+    answer { d with cap := 0 } c .done "none"
   | ["ks", re, n, idx] =>
     -- the TRACE current_Ks reshuffle on the matrix whose entry k is k: leading (n-1)x(n-1) block
     match n.toNat?, idx.toNat? with
@@ -180,13 +182,13 @@ def stepLine (d : DS) (toks : List String) : DS × String :=
     match h.toNat?, parseEntries hint with
     | some h, some t =>
       let (c', o) := removeByHash d.v (hintSorter (some t)) d.c h (bit ks)
-      answer d c' o (hintStatus (some t) d.c.lookup c'.lookup)
+      answer { d with cap := capAfterLookup d.cap d.c h } c' o (hintStatus (some t) d.c.lookup c'.lookup)
     | _, _ => (d, "bad-op")
   | ["get", h, hint] =>
     match h.toNat?, parseEntries hint with
     | some h, some t =>
       let (c', o) := particleByHash (hintSorter (some t)) d.c h
-      answer d c' o (hintStatus (some t) d.c.lookup c'.lookup)
+      answer { d with cap := capAfterLookup d.cap d.c h } c' o (hintStatus (some t) d.c.lookup c'.lookup)
     | _, _ => (d, "bad-op")
   | ["sethash", i, h] =>
     match i.toNat?, h.toNat? with
@@ -229,5 +231,5 @@ end RV.Driver.C14
 def main : IO Unit := do
   let i ← IO.getStdin
   let o ← IO.getStdout
-  RV.Driver.C14.loop i o ⟨Variant.current, State.init false false false⟩
+  RV.Driver.C14.loop i o ⟨Variant.current, State.init false false false, 0⟩
   o.flush
